@@ -362,7 +362,7 @@ pub fn gen_snd(r: &mut Rng, thorough: bool, cx: &mut Ctx) {
                     let zero_at = if mode == 5 && r.coin() { r.below(writes as u64 * 2) as usize } else { usize::MAX };
                     flush_ok = !(mode == 3 || (mode == 5 && r.coin()));
                     for i in 0..(writes * 14) {
-                        if i == err_at { ans.push(0x1001); continue; }
+                        if i == err_at { ans.push(if r.coin() { 0x1001 } else { 0x1002 }); continue; }
                         if i == zero_at { ans.push(0); continue; }
                         match mode { 0 => break, 1 => ans.push(1), 2 => { if r.chance(1, 5) { ans.push(0x1000); } ans.push(r.range(1, 4)); } _ => { ans.push(r.range(1, 20)); } }
                     }
